@@ -137,13 +137,15 @@ func (p *pod) GetQOSClass() v1.PodQOSClass {
 }
 
 func (p *pod) goFetchPodResources(ch <-chan *podresapi.PodResources) {
-	go func() {
-		p.podResCh = ch
-		p.waitResCh = make(chan struct{})
-		defer close(p.waitResCh)
+	waitCh := make(chan struct{})
+	p.podResCh = ch
+	p.waitResCh = waitCh
 
-		if p.podResCh != nil {
-			p.PodResources = <-p.podResCh
+	go func() {
+		defer close(waitCh)
+
+		if ch != nil {
+			p.PodResources = <-ch
 			log.Debug("fetched pod resources %+v for %s", p.PodResources, p.GetName())
 		}
 	}()
